@@ -502,6 +502,23 @@ Definition proj (ob : robs) : option sobs :=
   | _ => None
   end.
 
+(* the same premises restricted to the payloads of states satisfying W (the real JSON / base64
+   round trips hold for well-formed data only: no lone surrogates, bytes < 256) *)
+Definition codec_at (O : oracles) (k : text) (s : sess) : Prop :=
+  let p := ser O (payload s) in
+  unb64 O (b64 O (mac O k p ++ p)) = Some (mac O k p ++ p) /\ deser O p = Some (payload s).
+Definition codec_ok (O : oracles) (k : text) (W : dict -> Prop) : Prop :=
+  forall s, W (st s) -> codec_at O k s.
+Definition closed (W : dict -> Prop) (p : op) : Prop := forall d, W d -> W (fst (raw p d)).
+Definition chain_closed (W : dict -> Prop) (l : list req) : Prop :=
+  Forall (fun r => Forall (fun pt => closed W (fst pt)) (rops r)) l.
+Definition inv_on (O : oracles) (o : opts) (W : dict -> Prop) (last : option text) (sv : option store) : Prop :=
+  match last, sv with
+  | None, None => True
+  | Some c, Some v => c = cookie_of O o (store_sess v) /\ W (s_st v)
+  | _, _ => False
+  end.
+
 Definition ok_at (ob : robs) (sp : option sobs) : Prop :=
   match sp with None => True | Some b => proj ob = Some b end.
 
@@ -535,6 +552,12 @@ Definition frac_repr (r : N) : text :=
 Definition flt_repr (q : Z) : text :=
   (if (q <? 0)%Z then [45%N] else []) ++ dec_N (Z.abs_N q / 4) ++ [46%N] ++ frac_repr (Z.abs_N q mod 4).
 
+Fixpoint join_sep (l : list text) : text :=       (* ", ".join(l) *)
+  match l with
+  | [] => []
+  | x :: r => match r with [] => x | _ => x ++ [44; 32]%N ++ join_sep r end
+  end.
+
 Fixpoint json_dumps (v : jv) : text :=
   match v with
   | JNull => [110; 117; 108; 108]%N
@@ -543,23 +566,213 @@ Fixpoint json_dumps (v : jv) : text :=
   | JInt z => dec_Z z
   | JFlt q => flt_repr q
   | JStr s => json_str s
-  | JList l =>
-      91%N :: (fix go (l : list jv) : text :=
-                 match l with
-                 | [] => []
-                 | x :: r => match r with [] => json_dumps x | _ => json_dumps x ++ [44; 32]%N ++ go r end
-                 end) l ++ [93%N]
-  | JObj m =>
-      123%N :: (fix go (m : list (text * jv)) : text :=
-                  match m with
-                  | [] => []
-                  | (k, x) :: r =>
-                      match r with
-                      | [] => json_str k ++ [58; 32]%N ++ json_dumps x
-                      | _ => json_str k ++ [58; 32]%N ++ json_dumps x ++ [44; 32]%N ++ go r
-                      end
-                  end) m ++ [125%N]
+  | JList l => 91%N :: join_sep (map json_dumps l) ++ [93%N]
+  | JObj m => 123%N :: join_sep (map (fun kv => json_str (fst kv) ++ [58; 32]%N ++ json_dumps (snd kv)) m) ++ [125%N]
   end.
+
+(* ---- a reader for exactly this output format (json.loads restricted to what json.dumps writes) *)
+Definition hexv (c : N) : option N :=
+  if is_digit c then Some (c - 48)%N
+  else if (97 <=? c)%N && (c <=? 102)%N then Some (c - 87)%N
+  else if (65 <=? c)%N && (c <=? 70)%N then Some (c - 55)%N else None.
+Definition read_u4 (l : text) : option (N * text) :=
+  match l with
+  | a :: b :: c :: d :: r =>
+      match hexv a, hexv b, hexv c, hexv d with
+      | Some a, Some b, Some c, Some d => Some ((((a * 16 + b) * 16 + c) * 16 + d)%N, r)
+      | _, _, _, _ => None
+      end
+  | _ => None
+  end.
+Definition unesc (e : N) : option N :=
+  if (e =? 34)%N then Some 34%N else if (e =? 92)%N then Some 92%N else if (e =? 47)%N then Some 47%N
+  else if (e =? 110)%N then Some 10%N else if (e =? 114)%N then Some 13%N else if (e =? 116)%N then Some 9%N
+  else if (e =? 98)%N then Some 8%N else if (e =? 102)%N then Some 12%N else None.
+Definition cons_res (c : N) (x : option (text * text)) : option (text * text) :=
+  match x with Some (s, r) => Some (c :: s, r) | None => None end.
+
+(* after the opening quote *)
+Fixpoint read_str (f : nat) (l : text) : option (text * text) :=
+  match f with
+  | O => None
+  | S f' =>
+      match l with
+      | [] => None
+      | c :: r =>
+          if (c =? 34)%N then Some ([], r)
+          else if (c =? 92)%N then
+            match r with
+            | [] => None
+            | e :: r1 =>
+                if (e =? 117)%N then
+                  match read_u4 r1 with
+                  | None => None
+                  | Some (h, r2) =>
+                      if (55296 <=? h)%N && (h <=? 56319)%N then
+                        match r2 with
+                        | a :: b :: r3 =>
+                            if (a =? 92)%N && (b =? 117)%N then
+                              match read_u4 r3 with
+                              | Some (lo, r4) =>
+                                  if (56320 <=? lo)%N && (lo <=? 57343)%N
+                                  then cons_res (65536 + (h - 55296) * 1024 + (lo - 56320))%N (read_str f' r4)
+                                  else cons_res h (read_str f' r2)
+                              | None => None
+                              end
+                            else cons_res h (read_str f' r2)
+                        | _ => cons_res h (read_str f' r2)
+                        end
+                      else cons_res h (read_str f' r2)
+                  end
+                else match unesc e with Some x => cons_res x (read_str f' r1) | None => None end
+            end
+          else cons_res c (read_str f' r)
+      end
+  end.
+
+Fixpoint span_digits (l : text) : text * text :=
+  match l with
+  | [] => ([], [])
+  | c :: r => if is_digit c then let '(a, b) := span_digits r in (c :: a, b) else ([], l)
+  end.
+Definition numval (s : text) (a : N) : N := fold_left (fun a c => (a * 10 + (c - 48))%N) s a.
+
+Definition read_num (l : text) : option (jv * text) :=
+  let '(neg, l1) := match l with c :: r => if (c =? 45)%N then (true, r) else (false, l) | [] => (false, l) end in
+  let '(dsx, r) := span_digits l1 in
+  match dsx with
+  | [] => None
+  | _ =>
+      let n := Z.of_N (numval dsx 0) in
+      let sg := fun z : Z => if neg then Z.opp z else z in
+      match r with
+      | d :: a :: r1 =>
+          if (d =? 46)%N then
+            if (a =? 48)%N then Some (JFlt (sg (n * 4)%Z), r1)
+            else if (a =? 53)%N then Some (JFlt (sg (n * 4 + 2)%Z), r1)
+            else match r1 with
+                 | b :: r2 =>
+                     if (a =? 50)%N && (b =? 53)%N then Some (JFlt (sg (n * 4 + 1)%Z), r2)
+                     else if (a =? 55)%N && (b =? 53)%N then Some (JFlt (sg (n * 4 + 3)%Z), r2)
+                     else None
+                 | [] => None
+                 end
+          else Some (JInt (sg n), r)
+      | _ => Some (JInt (sg n), r)
+      end
+  end.
+
+Definition reader := text -> option (jv * text).
+
+(* items after '[' (at least one), up to and including ']' *)
+Fixpoint p_items (d : reader) (k : nat) (l : text) : option (list jv * text) :=
+  match k with
+  | O => None
+  | S k' =>
+      match d l with
+      | None => None
+      | Some (v, r) =>
+          match r with
+          | c :: r1 =>
+              if (c =? 93)%N then Some ([v], r1)
+              else if (c =? 44)%N then
+                match r1 with
+                | sp :: r2 =>
+                    if (sp =? 32)%N then
+                      match p_items d k' r2 with Some (vs, r3) => Some (v :: vs, r3) | None => None end
+                    else None
+                | [] => None
+                end
+              else None
+          | [] => None
+          end
+      end
+  end.
+
+(* pairs after '{' (at least one), up to and including '}' *)
+Fixpoint p_pairs (d : reader) (f k : nat) (l : text) : option (list (text * jv) * text) :=
+  match k with
+  | O => None
+  | S k' =>
+      match l with
+      | q :: l1 =>
+          if (q =? 34)%N then
+            match read_str f l1 with
+            | Some (key, c1 :: c2 :: l2) =>
+                if (c1 =? 58)%N && (c2 =? 32)%N then
+                  match d l2 with
+                  | None => None
+                  | Some (v, r) =>
+                      match r with
+                      | c :: r1 =>
+                          if (c =? 125)%N then Some ([(key, v)], r1)
+                          else if (c =? 44)%N then
+                            match r1 with
+                            | sp :: r2 =>
+                                if (sp =? 32)%N then
+                                  match p_pairs d f k' r2 with Some (vs, r3) => Some ((key, v) :: vs, r3) | None => None end
+                                else None
+                            | [] => None
+                            end
+                          else None
+                      | [] => None
+                      end
+                  end
+                else None
+            | _ => None
+            end
+          else None
+      | [] => None
+      end
+  end.
+
+Fixpoint strip_lit (p s : text) : option text :=
+  match p with
+  | [] => Some s
+  | x :: p' => match s with y :: s' => if (x =? y)%N then strip_lit p' s' else None | [] => None end
+  end.
+
+Fixpoint parse (f : nat) (l : text) : option (jv * text) :=
+  match f with
+  | O => None
+  | S f' =>
+      match l with
+      | [] => None
+      | c :: r =>
+          if (c =? 110)%N then match strip_lit [117; 108; 108]%N r with Some r' => Some (JNull, r') | None => None end
+          else if (c =? 116)%N then match strip_lit [114; 117; 101]%N r with Some r' => Some (JBool true, r') | None => None end
+          else if (c =? 102)%N then match strip_lit [97; 108; 115; 101]%N r with Some r' => Some (JBool false, r') | None => None end
+          else if (c =? 34)%N then match read_str f' r with Some (s, r') => Some (JStr s, r') | None => None end
+          else if (c =? 91)%N then
+            match r with
+            | c1 :: r1 => if (c1 =? 93)%N then Some (JList [], r1)
+                          else match p_items (parse f') f' r with Some (vs, r') => Some (JList vs, r') | None => None end
+            | [] => None
+            end
+          else if (c =? 123)%N then
+            match r with
+            | c1 :: r1 => if (c1 =? 125)%N then Some (JObj [], r1)
+                          else match p_pairs (parse f') f' f' r with Some (vs, r') => Some (JObj vs, r') | None => None end
+            | [] => None
+            end
+          else read_num l
+      end
+  end.
+
+Definition json_loads (b : text) : option jv :=
+  match parse (length b) b with Some (v, []) => Some v | _ => None end.
+
+(* well-formed data: strings of Unicode scalar values (json.dumps writes a lone surrogate as an
+   escape that json.loads may merge with its neighbour, so those do not round-trip in Python either) *)
+Definition wf_char (c : N) : bool := (c <? 1114112)%N && negb ((55296 <=? c)%N && (c <=? 57343)%N).
+Fixpoint wf_jv (v : jv) : bool :=
+  match v with
+  | JStr s => forallb wf_char s
+  | JList l => forallb wf_jv l
+  | JObj m => forallb (fun kv => forallb wf_char (fst kv) && wf_jv (snd kv)) m
+  | _ => true
+  end.
+Definition wf_dict (d : dict) : bool := wf_jv (JObj d).
 
 (* base64.urlsafe_b64encode(..).rstrip(b'=') *)
 Definition b64c (n : N) : N :=
@@ -572,6 +785,33 @@ Fixpoint b64enc (l : list N) : text :=
   | [a; b] => [b64c (a / 4); b64c ((a mod 4) * 16 + b / 16); b64c ((b mod 16) * 4)]%N
   | [a] => [b64c (a / 4); b64c ((a mod 4) * 16)]%N
   | [] => []
+  end.
+
+Definition b64v (c : N) : option N :=
+  if (65 <=? c)%N && (c <=? 90)%N then Some (c - 65)%N
+  else if (97 <=? c)%N && (c <=? 122)%N then Some (c - 71)%N
+  else if (48 <=? c)%N && (c <=? 57)%N then Some (c + 4)%N
+  else if (c =? 45)%N then Some 62%N else if (c =? 95)%N then Some 63%N else None.
+Fixpoint b64dec (l : text) : option (list N) :=
+  match l with
+  | [] => Some []
+  | c0 :: c1 :: c2 :: c3 :: r =>
+      match b64v c0, b64v c1, b64v c2, b64v c3, b64dec r with
+      | Some s0, Some s1, Some s2, Some s3, Some x =>
+          Some ((s0 * 4 + s1 / 16) :: ((s1 mod 16) * 16 + s2 / 4) :: ((s2 mod 4) * 64 + s3) :: x)%N
+      | _, _, _, _, _ => None
+      end
+  | [c0; c1; c2] =>
+      match b64v c0, b64v c1, b64v c2 with
+      | Some s0, Some s1, Some s2 => Some [(s0 * 4 + s1 / 16); ((s1 mod 16) * 16 + s2 / 4)]%N
+      | _, _, _ => None
+      end
+  | [c0; c1] =>
+      match b64v c0, b64v c1 with
+      | Some s0, Some s1 => Some [(s0 * 4 + s1 / 16)%N]
+      | _, _ => None
+      end
+  | _ => None
   end.
 
 (* ------------------------------------------------------------------ wire glue *)
